@@ -5,8 +5,8 @@
                                      matrix, discarded weights zero;  U = Q U_inner is orthonormal because a frame preserves
                                      inner products;
      symeig_svd, branch dim_1 > dim_2: U = eigh's orthogonal W (flipped), discarded eigenvectors null vectors of M^T.
-   NOT covered: symeig_svd on a mode unfolding with dim_1 <= dim_2 (U = (M V)/S): its null-space columns are zero in exact
-   arithmetic, i.e. not orthonormal, which the Tucker machinery (fitp) requires. *)
+   symeig_svd on a mode unfolding with dim_1 <= dim_2 (U = (M V) / S, null-space columns exactly zero, i.e. not orthonormal) is
+   covered by Proofs/SvdDecompSymeigWide.v through the weakened contract svd_contract_su of Proofs/SvdDecompTuckerSemi.v. *)
 From Coq Require Import List Arith Lia Bool Reals Lra RealField.
 From TLV Require Import Base.Shape Base.PyList Base.Tensor Base.BigSum Base.Ops Model.Base Model.SvdDecomp Model.SvdDecompSymeig
      Model.SvdDecompRand Proofs.SvdDecompProofs Proofs.SvdDecompProofsR Proofs.SvdDecompPyth Proofs.SvdDecompTucker
